@@ -144,6 +144,7 @@ pub fn bytes_of(letters: &[usize]) -> Vec<u8> {
 }
 
 pub fn run_c10(bytes: &[u8], _t: Tier) -> Outcome {
+    crate::engine::set_engine_hash_seed(bytes);
     let letters = letters_of(bytes);
     let (failures, trace, nontrivial) = run_letters(&letters);
     Outcome {
